@@ -165,7 +165,22 @@ static std::string refine(TasmanianSparseGrid &g, const Cfg &cfg, int round){
     return g.getNumNeeded() ? "update(depth+1)" : "";
 }
 
+// one very deep 1-D Fourier grid (3^10 points): only the O(N) routes - the differentiation weights applied to low trigonometric modes against the analytic derivative,
+// and differentiate() against weights . values; tolerance 1e-5 relative to the size of the derivative (the guarded defects were of size 1e-3 and larger)
+static void explore_deep_fourier(Ctx &c, const Cfg &cfg){
+    TasmanianSparseGrid g; make(g, cfg); c.states++; int n = g.getNumPoints(); auto pts = g.getPoints();
+    std::vector<double> v((size_t) n); for(int i=0;i<n;i++) v[(size_t) i] = std::sin(2.0 * M_PI * pts[(size_t) i]) + 0.3 * std::cos(6.0 * M_PI * pts[(size_t) i]);
+    g.loadNeededValues(v); c.transitions++;
+    for(double x : {0.3137, 0.50123, pts[(size_t) n - 1] + 0.4 / n}){
+        std::vector<double> xv = {x}, jac; g.differentiate(xv, jac); auto w = g.getDifferentiationWeights(xv); double s = 0, sa = 0; for(int i=0;i<n;i++){ s += w[(size_t) i] * v[(size_t) i]; sa += std::abs(w[(size_t) i] * v[(size_t) i]); } c.evals += 2;
+        double ex = 2.0 * M_PI * std::cos(2.0 * M_PI * x) - 0.3 * 6.0 * M_PI * std::sin(6.0 * M_PI * x);
+        if (!(std::abs(s - jac[0]) <= 1e-5 * std::max(20.0, std::abs(ex)))){ std::ostringstream o; o.precision(14); o << "1-D Fourier grid with " << n << " points at x = " << x << ": differentiate() = " << jac[0] << ", differentiation weights . values = " << s << " (analytic " << ex << ")"; report(c, "C05:deep:diff-weights:fourier", cfg, "make load", o.str()); return; }
+        if (!(std::abs(jac[0] - ex) <= 1e-5 * std::max(20.0, std::abs(ex)))){ std::ostringstream o; o.precision(14); o << "1-D Fourier grid with " << n << " points at x = " << x << ": differentiate() = " << jac[0] << ", analytic derivative of the loaded trigonometric polynomial " << ex; report(c, "C05:deep:gradient-analytic:fourier", cfg, "make load", o.str()); return; }
+        (void) sa;
+    }
+}
 static void explore_cfg(Ctx &c, const Cfg &cfg){
+    if (cfg.fam == F_FOURIER && cfg.dims == 1 && cfg.depth >= 9){ explore_deep_fourier(c, cfg); return; }
     bool tr = !cfg.ta.empty(); bool th = (g_tier == "thorough"); int d = cfg.dims, outs = cfg.outs;
     Cfg cc = cfg; cc.ta.clear(); cc.tb.clear();
     std::string hist = "make";
@@ -249,6 +264,8 @@ static std::vector<Cfg> unit_cfgs(const U0 &u){
     int maxdepth = (d == 1) ? (th ? 6 : 5) : (d == 2 ? (th ? 4 : 3) : 2);
     if (u.rule == rule_customtabulated) maxdepth = std::min(maxdepth, (d == 1) ? 5 : 3);
     if (u.fam == F_FOURIER) maxdepth = (d == 1) ? 4 : (d == 2 ? 3 : 2);
+    // one very deep 1-D Fourier grid (59049 points): integer and phase-table arithmetic of the weights that is harmless on small grids
+    if (u.fam == F_FOURIER && d == 1) for(int depth : (th ? std::vector<int>{9, 10} : std::vector<int>{10})){ Cfg c; c.fam = u.fam; c.rule = u.rule; c.dims = 1; c.outs = 1; c.depth = depth; c.type = type_level; out.push_back(c); }
     for(auto type : types){
         const std::vector<std::vector<int>> &W = OneDimensionalMeta::isTypeCurved(type) ? Wc : W1;
         for(int depth=0; depth<=maxdepth; depth++) for(auto &aw : W) for(int tr=0; tr<2; tr++) for(auto &ab : AB){
